@@ -57,7 +57,9 @@ static inline size_t varintBP128MaxBytes(size_t count) {
     if (remainder > 0) {
         bytes += 2 + remainder * 8; /* header + count + data */
     }
-    return bytes;
+    /* The 64-bit and delta forms start with a tagged varint (element count
+     * or first value): up to 9 more bytes */
+    return bytes + 9;
 }
 
 /* Encode array of uint32_t values in BP128 format
